@@ -393,6 +393,9 @@ def simple_family(run, fam, replay=None):
             n, _ = run.known.get(hit["id"], (0, hit["summary"]))
             run.known[hit["id"]] = (n + 1, hit["summary"])
             continue
+        if any(c == clause for c, _, _ in run.violations):
+            run.extra_violations = getattr(run, "extra_violations", 0) + 1
+            continue      # one replay file per violated clause (first witness)
         payload = {"family": fam["name"], "property": run.prop, "clause": clause, "event": ev, "mismatch": mis}
         if fam.get("replay_context"):
             payload["context"] = fam["replay_context"](ev, clean)
